@@ -168,7 +168,7 @@ after an error response — that was the session's only connection at that momen
 `endsWhenUnused`, i.e. not streaming over UDP / multicast, held as well). -/
 theorem ends_only_for_a_reason (cfg : Config) (srv : Server) (e : Event) (id : Nat)
     (hid : id ∈ sessIds srv) (hgone : id ∉ sessIds (stepEv cfg srv e).1) :
-    e = .expire id ∨
+    e = .expire id ∨ e = .silence ∨
     (∃ c r res, e = .req c r ∧ (stepEv cfg srv e).2 = some res ∧ r.method = .teardown ∧
         res.status = 200 ∧ res.err ≠ .fail) ∨
     (∃ c cn ss, (e = .close c ∨ e = .frame c ∨ e = .response c) ∧ findConn srv c = some cn ∧ cn.sess = some id ∧
@@ -181,6 +181,7 @@ theorem ends_only_for_a_reason (cfg : Config) (srv : Server) (e : Event) (id : N
   | «open» c ip =>
     exfalso; apply hgone
     simp only [stepEv]; split; exact hid; exact hid
+  | silence => right; left; rfl
   | expire sid =>
     left
     simp only [stepEv] at hgone
@@ -188,13 +189,13 @@ theorem ends_only_for_a_reason (cfg : Config) (srv : Server) (e : Event) (id : N
     · rw [he]
     · exact absurd (mem_sessIds_endSession.mpr ⟨hid, he⟩) hgone
   | close c =>
-    right; right; left
+    right; right; right; left
     simp only [stepEv] at hgone
     rcases closeConn_ids (c := c) hid with h | ⟨cn, ss, h1, h2, h3, h4, h5⟩
     · exact absurd h hgone
     · exact ⟨c, cn, ss, Or.inl rfl, h1, h2, h3, h4, h5⟩
   | frame c =>
-    right; right; left
+    right; right; right; left
     simp only [stepEv, nonRequest] at hgone
     split at hgone
     · exact absurd hid hgone
@@ -204,7 +205,7 @@ theorem ends_only_for_a_reason (cfg : Config) (srv : Server) (e : Event) (id : N
         · exact absurd h hgone
         · exact ⟨c, cn, ss, Or.inr (Or.inl rfl), h1, h2, h3, h4, h5⟩
   | response c =>
-    right; right; left
+    right; right; right; left
     simp only [stepEv, nonRequest] at hgone
     split at hgone
     · exact absurd hid hgone
@@ -230,19 +231,19 @@ theorem ends_only_for_a_reason (cfg : Config) (srv : Server) (e : Event) (id : N
       · rw [if_pos hfail] at hgone
         simp only [hfail, if_true]
         rcases hids with h | ⟨hm, hs, he⟩
-        · right; right; right
+        · right; right; right; right
           rcases closeConn_ids (c := cn.id) h with h' | ⟨cn1, ss1, _, _, h3, h4, h5⟩
           · exact absurd h' hgone
           · exact ⟨c, r, _, cn, srv1, ss1, rfl, rfl, by simpa using hfail, hf, by rw [hci], h3, h4, h5⟩
         · exact absurd (by simpa using hfail) he
       · rw [if_neg hfail] at hgone
         simp only [hfail]
-        have hsm : sessIds (setMode srv1 cn.id res.err) = sessIds srv1 := by simp [sessIds]
-        rw [show (setMode srv1 cn.id res.err, ({ res with cseq := r.cseq } : Resp)).1 = setMode srv1 cn.id res.err from rfl,
-          hsm] at hgone
+        have hsm : sessIds (arm srv (setMode srv1 cn.id res.err) cn.id) = sessIds srv1 := by simp [sessIds]
+        rw [show (arm srv (setMode srv1 cn.id res.err) cn.id, ({ res with cseq := r.cseq } : Resp)).1 =
+            arm srv (setMode srv1 cn.id res.err) cn.id from rfl, hsm] at hgone
         rcases hids with h | ⟨hm, hs, he⟩
         · exact absurd h hgone
-        · right; left
+        · right; right; left
           exact ⟨c, r, _, rfl, rfl, hm, hs, he⟩
 
 end Rtsp.Sess
